@@ -105,6 +105,11 @@ def bounds_atom(ax: Axes, t: T):
             inside = {(">=", 0): True, ("<", 0): False, (">", -1): True, ("<=", -1): False}.get((o, ko))
             near = ko in (0, -1, 1)
             if not near:
+                if ko > 1 and o in ("<", ">=", "<=", ">"):
+                    # a literal extent (module constant such as GRID_SIZE folded to its value): the side it selects is
+                    # known, whether the literal is the right one is not decided here
+                    inside = o in ("<", "<=")
+                    return X, "ext", O, inside, (True if o in ("<", ">=") else None), f"{txt(X, 2, 30)} {o} {ko}"
                 return None
             if inside is None:
                 # a non-canonical test against the border constant: which side it is meant to select
@@ -255,6 +260,95 @@ def decisive(ax: Axes, F: T, atoms: Dict[int, tuple], want: Optional[bool] = Non
     return False, "border tests pull the formula in opposite directions (one forces True, another forces False)"
 
 
+def _grid_reads(t: T) -> List[Tuple[T, List[T]]]:
+    """[(array, coordinate terms)] of the subscript reads G[tuple(p)], G[a, b], G[c, a, b] at the top of t: the walk goes
+    through casts, comparisons, arithmetic and call arguments, and stops at the first subscript (what the array G itself
+    was computed from is not part of this formula)."""
+    out = []
+    seen = set()
+
+    def walk(d: T, depth: int):
+        d = strip_cast(d)
+        if d.id in seen or depth > 6:
+            return
+        seen.add(d.id)
+        if d.kind == "index":
+            base, idx = d.args
+            if base.kind == "attr" and base.args[1] in ("shape", "at"):
+                return
+            i0 = strip_cast(idx)
+            coords = None
+            if ext_name(i0) == "builtins.tuple" and i0.args[1]:
+                coords = [strip_cast(i0.args[1][0])]
+            elif i0.kind == "tuple":
+                cs = [strip_cast(x) for x in i0.args[0] if strip_cast(x).kind not in ("const", "slice")]
+                if len(cs) == 2:
+                    coords = cs
+            if coords:
+                out.append((base, coords))
+            return
+        if d.kind in ("cmp", "bin"):
+            walk(d.args[1], depth + 1)
+            walk(d.args[2], depth + 1)
+        elif d.kind == "un":
+            walk(d.args[1], depth + 1)
+        elif d.kind == "call":
+            for a in d.args[1]:
+                walk(a, depth + 1)
+        elif d.kind in ("copy", "elem"):
+            walk(d.args[0], depth + 1)
+
+    walk(t, 0)
+    return out
+
+
+def guarded_read(ax: Axes, F: T, atoms: Dict[int, tuple]):
+    """B3: inside a formula that bounds-tests a coordinate, the cells that are READ are the cell that is tested.
+    (ok or None, detail)"""
+    from ..terms import contains
+    tested: List[T] = []
+    leaves: List[T] = []
+
+    def collect(t: T):
+        t0 = strip_cast(t)
+        if t0.id in atoms:
+            X = ax.core(atoms[t0.id][0])
+            if X not in tested:
+                tested.append(X)
+            return
+        bp = _bool_parts(t0)
+        if bp is None:
+            leaves.append(t0)
+            return
+        for x in bp[1]:
+            collect(x)
+
+    collect(F)
+    reads = []
+    for l in leaves:
+        reads += _grid_reads(l)
+    if not reads or not tested:
+        return None, "no grid read inside the formula"
+
+    def same(coords: List[T]) -> bool:
+        # the read coordinates are the tested coordinate (a vector) or its two components
+        for X in tested:
+            if len(coords) == 1 and (ax.core(coords[0]) is X):
+                return True
+            if len(coords) == 2 and all(ax.core(c) is X or contains(c, X) and c.kind in ("proj", "index") or ax.core(c) in tested for c in coords):
+                return True
+        return False
+    bad = [(g, cs) for g, cs in reads if not same(cs)]
+    related = [(g, cs) for g, cs in bad if any(contains(c, X) or contains(X, ax.core(c)) for c in cs for X in tested)]
+    if not bad:
+        return True, f"{len(reads)} grid read(s), all at the bounds-tested coordinate"
+    if related:
+        g, cs = related[0]
+        return False, (f"the formula bounds-tests {txt(tested[0], 2, 40)} but reads {txt(g, 2, 30)} at {[txt(c, 2, 40) for c in cs]}, "
+                       f"a different cell computed from it: that cell can lie outside the grid (JAX clamps / wraps the index silently)")
+    return None, "reads at unrelated coordinates (not compared)"
+
+
 def add_obligations(res, tree, rule: str, scope: str = "all") -> int:
     """scope 'all' | 'mask' (sites inside mask / validity functions only)."""
     from .axis_rules import MASK_FUNC_HINTS
@@ -305,5 +399,9 @@ def add_obligations(res, tree, rule: str, scope: str = "all") -> int:
             res.add(rule, loc, fn, f"a coordinate outside the grid decides: {src}", ok, why)
             n += 1
             per_env[ea.cls.name] = per_env.get(ea.cls.name, 0) + 1
+            ok3, why3 = guarded_read(ax, F, atoms)
+            if ok3 is not None:
+                res.add(rule, loc, fn, f"the cell that is read is the cell that is bounds-tested: {src}", ok3, why3)
+                n += 1
     res.extra.setdefault("border_test_sites_per_environment", {}).update({f"{rule}:{k}": v for k, v in per_env.items()})
     return n
